@@ -171,7 +171,7 @@ var traversePathOpType = &operationType{Type: "TRAVERSE_PATH", NumArgs: 0, Prece
 		return fmt.Sprintf("%v", p.Value)
 	}}
 
-var traverseArrayOpType = &operationType{Type: "TRAVERSE_ARRAY", NumArgs: 2, Precedence: 50, Handler: traverseArrayOperator}
+var traverseArrayOpType = &operationType{Type: "TRAVERSE_ARRAY", NumArgs: 2, Precedence: 47, Handler: traverseArrayOperator}
 
 var selfReferenceOpType = &operationType{Type: "SELF", NumArgs: 0, Precedence: 55, Handler: selfOperator}
 var valueOpType = &operationType{Type: "VALUE", NumArgs: 0, Precedence: 50, Handler: valueOperator, ToString: valueToStringFunc}
